@@ -102,7 +102,7 @@ def check_C01(tier, seed):
         gens.append(("kv4f14", gen_cfg(n, act, fill), ["three", "two"]))
         n, act, fill = spread(3, 2)
         gens.append(("mix3", gen_cfg(n, act, fill, pre=("absent", "kv", "bucket"),
-                                     acts=("keep", "put", "del", "mkb", "delb", "gocb")), ["two", "overflow"]))
+                                     acts=("keep", "put", "del", "mkb", "delb", "gocb", "stale")), ["two", "overflow"]))
         n, act, fill = spread(3, 3)
         gens.append(("nest3", gen_cfg(n, act, fill, path=(0, 2), pre=("absent", "kv", "bucket"),
                                       acts=("keep", "put", "del", "delb")), ["two", "empty"]))
@@ -128,7 +128,7 @@ def check_C01(tier, seed):
         gens.append(("kv5f30", gen_cfg(n, act, fill), ["three"]))
         n, act, fill = spread(4, 3)
         gens.append(("mix4", gen_cfg(n, act, fill, pre=("absent", "kv", "bucket"),
-                                     acts=("keep", "put", "del", "mkb", "delb", "gocb")),
+                                     acts=("keep", "put", "del", "mkb", "delb", "gocb", "stale")),
                      ["two", "overflow", "empty"]))
         n, act, fill = spread(4, 6)
         gens.append(("nest4", gen_cfg(n, act, fill, path=(0, 2), pre=("absent", "kv", "bucket"),
@@ -733,25 +733,32 @@ def threads_check(prop, tier, seed):
         live = tlc_mc("MC_Threads", "MC_Threads_live.cfg", timeout=2400, workers=10)
         if not live["ok"]:
             raise ToolError("Threads.tla violates Progress / deadlock freedom: %s" % live["violated"])
+    # plan: (readers, writers, commits per writer, reads, max preemptions, grow, preempt only at key points)
     if prop == "C04":
-        plans = [(1, 2, 2, 2, 2), (2, 1, 3, 1, 2)] if tier == "quick" else \
-                [(1, 2, 2, 2, 3), (2, 2, 2, 2, 2), (2, 1, 4, 2, 2), (1, 3, 1, 2, 2)]
+        # page reuse under parked readers: the file is pre-sized (a growing commit would wait for every reader)
+        plans = [(1, 2, 2, 2, 2, 0, False), (2, 1, 3, 1, 2, 0, False), (2, 1, 3, 1, 3, 0, True)] if tier == "quick" else \
+                [(1, 2, 2, 2, 3, 0, False), (2, 2, 2, 2, 2, 0, False), (2, 1, 4, 2, 3, 0, True), (1, 3, 1, 2, 2, 0, False),
+                 (2, 1, 3, 1, 2, 1, False)]
         nrandom = 600 if tier == "quick" else 20000
     else:
-        plans = [(1, 2, 2, 1, 2), (1, 3, 1, 1, 2)] if tier == "quick" else \
-                [(1, 3, 2, 1, 2), (2, 2, 2, 1, 2), (2, 3, 1, 1, 2), (1, 2, 3, 1, 3)]
+        plans = [(1, 2, 2, 1, 2, 1, False), (1, 3, 1, 1, 2, 1, False)] if tier == "quick" else \
+                [(1, 3, 2, 1, 2, 1, False), (2, 2, 2, 1, 2, 1, False), (2, 3, 1, 1, 2, 0, False), (1, 2, 3, 1, 3, 1, True)]
         nrandom = 600 if tier == "quick" else 20000
     tot = dict(schedules=0, runs=0, states=0, transitions=0, plans=[])
     sample = None
-    for (nr, nw, commits, reads, maxpre) in plans:
+    for (nr, nw, commits, reads, maxpre, grow, keyonly) in plans:
         readers = list(range(1, nr + 1))
         writers = list(range(11, 11 + nw))
-        beh, s, t = threads.gen_schedules("gt_%s_%d_%d_%d" % (prop, nr, nw, commits), readers, writers, commits, reads,
-                                          grows=[1], maxpre=maxpre)
+        beh, s, t = threads.gen_schedules("gt_%s_%d_%d_%d_%d" % (prop, nr, nw, commits, maxpre), readers, writers, commits, reads,
+                                          grows=[1] if grow else [], maxpre=maxpre,
+                                          preempt_at=threads.KEY_POINTS if keyonly else ())
+        if tier == "quick" and len(beh) > 9000:
+            beh = beh[::(len(beh) // 9000) + 1]
         runs, bad, smp = threads.run_schedules(v, prop, beh, nr, nw, commits, reads, "%s-%d-%d" % (prop, nr, nw),
-                                               random=nrandom // len(plans), seed=seed)
+                                               random=nrandom // len(plans), seed=seed, extra=["--grow", grow])
         tot["schedules"] += len(beh); tot["runs"] += runs; tot["states"] += s; tot["transitions"] += t
         tot["plans"].append(dict(readers=nr, writers=nw, commits_per_writer=commits, reads=reads, max_preemptions=maxpre,
+                                 first_commit_grows=bool(grow), preempt_only_at_key_points=keyonly,
                                  schedules=len(beh), runs=runs))
         sample = sample or [dict(schedule=beh[len(beh) // 2]["sched"][:14], observed=smp[0] if smp else None)]
     cov = dict(states=mc["states"] + tot["states"] + (live["states"] if live else 0),
